@@ -22,6 +22,13 @@ SIGS = {'S1': ('/sig/a/x', 'org.ex.I1', 'Sig1'), 'S2': ('/sig/b', 'org.ex.I2', '
 MATCH = {'R1': {'S1'}, 'R2': {'S1', 'S2', 'S3', 'NOC'}, 'R3': {'S2'}, 'R4': {'S1'}, 'R5': set(), 'R6': {'NOC'}}
 
 
+# samples of what the bus wrote, for the byte-level judgement by Message.tla (C14):
+#   FORWARDED: key -> (bytes the originator sent, bytes the bus delivered, unique name of the originator)
+#   ORIGINATED: key -> bytes of a message the bus itself produced (replies, NameAcquired, ...)
+FORWARDED = {}
+ORIGINATED = {}
+
+
 def name_str(n):
     return 'org.ex.N%d' % n
 
@@ -194,6 +201,9 @@ class BusDriver:
             return {'t': 'unexpected', 'what': repr((m._messageType, m.serial))}
         origin, descr, raw = src
         orig = message.parseMessage(raw, [])
+        if self.uid.get(origin):
+            key = (descr[0], descr[1] if len(descr) > 1 else None, raw[:1], raw[2], b':1.99' in raw)
+            FORWARDED.setdefault(key, (raw, self._lastraw, ':1.%d' % self.uid[origin]))
         same = all(getattr(orig, a, None) == getattr(m, a, None) for a in
                    ('_messageType', 'serial', 'expectReply', 'autoStart', 'path', 'interface', 'member', 'error_name',
                     'reply_serial', 'destination', 'signature', 'body'))
@@ -221,7 +231,11 @@ class BusDriver:
                 elif e[0] == 'write-after-close':
                     msgs.append({'t': 'write-after-close'})
             for raw in fakes.split_messages(data):
-                msgs.append(self.classify(c, message.parseMessage(raw, [])))
+                self._lastraw = raw
+                rec = self.classify(c, message.parseMessage(raw, []))
+                if rec.get('t') in ('return', 'error', 'signal'):
+                    ORIGINATED.setdefault((rec['t'], rec.get('tag') or rec.get('name') or rec.get('member'), len(raw)), raw)
+                msgs.append(rec)
             if t.disconnecting and not self.closed_seen[c]:
                 self.closed_seen[c] = True
                 msgs.append({'t': 'close'})
